@@ -7,7 +7,7 @@ import ast
 from ..linform import lin, show_lin
 from ..program import AnalysisError
 from ..rules import calls, is_call, is_mcall, mcalls, mentions, mentions_any
-from ..terms import C, Evaluator, G, P, is_t, mk_proj, show, subterms
+from ..terms import C, Evaluator, G, P, is_t, mk_proj, show, subterms, mk_cmp, mk_phi
 from .common import Obs, arms_of, call0, choices_of, cond_has, ctor_fields, is_zero, retval_of, score_of, tuple_n
 
 MOD = "generative_functions/static.py"
@@ -343,7 +343,7 @@ def analyse(obs: Obs, prog):
         D_ = G("genjax._src.core.compiler.interpreters.incremental.Diff")
         chkd = ("call", ("attr", D_, "static_check_tree_diff"), (inc,), ())
         keep = ("call", ("attr", D_, "tree_diff"), (("call", ("attr", D_, "tree_primal"), (inc,), ()), ("call", ("attr", D_, "tree_tangent"), (inc,), ())), ())
-        normed = rd == ("phi", ("un", "not", chkd), keep, inc)
+        normed = rd == mk_phi(("un", "not", chkd), keep, inc)
         overwrites = is_t(rd, "phi") and is_call(rd[2], "no_change")
         obs.add(props | {"C08"}, "SIBLING-NORMALISE", inst + "/retdiff", normed, construct="retval diffs normalised before they reach the Retdiff-annotated return slot",
                 derived=rd, expected="retval_diffs if it is a tree of Diffs else Diff.tree_diff(tree_primal(rd), tree_tangent(rd))  (constant leaves become NoChange, Diff leaves keep their tags; "
